@@ -223,7 +223,7 @@ def gen_adx():
 
 
 # ----------------------------------------------------------------- C02
-DISP_MAG = [0, 1, 0x7f, 0x80, 0x81, 0xff, 0x100, 0x7fff, 0x8000, 0x7fffffff]
+DISP_MAG = [0, 1, 0x7f, 0x80, 0x81, 0xff, 0x100, 0x7fff, 0x8000, 0x7fffffff, 9, 96, 0x3456, 0xabcdef]  # last four: every digit leads / occurs once
 DISPS = [None] + [d for d in DISP_MAG] + [-d for d in DISP_MAG if d] + [-0x80000000]
 KW = {8: "byte", 16: "word", 32: "dword", 64: "qword"}
 
@@ -265,7 +265,7 @@ def mem_exp(width, base, index, scale, disp, literal_sp_index=False):
 
 def shape_ok(base, index, scale, order, disp):
     if not base and not index:
-        return disp is not None and disp >= 0
+        return disp is not None and -0x80000000 <= disp <= 0x7fffffff
     if index in ("rsp", "esp"):
         return scale is None and base and base not in ("rsp", "esp")
     if index and not base:
@@ -307,7 +307,7 @@ def shapes(tier_full, rnd, per_combo_disps=2):
                         hs = ("wrap",) if (wrap_ok and rnd.random() < 0.25) else (rnd.choice((True, True, True, False, "dec0")),)
                     for hexdisp in hs:
                         yield base, index, scale, order, disp, hexdisp
-    for disp in (0, 1, 4, 0x7f, 0x80, 0xff, 0x100, 0x1234, 0x7fffffff):
+    for disp in (0, 1, 4, 0x7f, 0x80, 0xff, 0x100, 0x1234, 0x7fffffff, -1, -8, -0x80, -0x81, -0x1234, -0x80000000):
         yield None, None, None, "is", disp, True
         yield None, None, None, "is", disp, False
 
@@ -467,6 +467,8 @@ def imm_values(rnd, nrand=3):
     for c in (0xff80, 0xffffff80, 2**64 - 0x80, 2**64 - 0x80000000):  # unsigned spellings of small negatives
         vs |= {c - 1, c, c + 1}
     vs |= {0xfffd, 0xfffffffd, 0xe0, 0xe1}
+    # every decimal and hexadecimal digit as leading and as inner digit (the boundary values alone never start with 9, c or d)
+    vs |= {9, 90, 99, 0x9a, 0xbc, 0xcd, 0xde, 0xab, 3456, 6789, 0x4567, 0x89ab, 0xcdef, -9, -96, -0xcd}
     for c in (1, 2, 0x7f, 0x80, 0x81, 0xff, 0x100, 0x7fff, 0x8000, 0x8001, 0xffff, 0x10000, 0x7fffffff, 0x80000000, 0x80000001):
         vs.add(-c)
     vs |= {-(2**63), -(2**63) + 1, -0xffffffff, -0x100000000}
